@@ -62,7 +62,7 @@ def alias_stage(ctx, pid):
     states = transitions = scripts = events = 0
     runs, sample = [], None
     for amax in (0, 1, 2):
-        maxpub = (2 if amax == 2 else 3) if ctx.quick else 4
+        maxpub = (2 if amax == 2 else 3) if ctx.quick else 5
         cfg = ctx.path("MC_Alias_%d.cfg" % amax)
         open(cfg, "w").write(CONSTS % amax + "  MaxPub = %d\nSPECIFICATION Spec\nCONSTRAINT PubBound\nINVARIANTS %s\nCHECK_DEADLOCK FALSE\n" % (maxpub, " ".join(INV)))
         res = vlib.run_tlc(ctx, "MC_Alias", cfg=cfg, workers=4 if ctx.quick else 12, timeout=3000, name="alias_mc_%d" % amax)
